@@ -3,6 +3,7 @@ import RawPanelVerif.Driver.Strip
 import RawPanelVerif.Driver.Text
 import RawPanelVerif.Driver.Tile
 import RawPanelVerif.Driver.Pix
+import RawPanelVerif.Driver.Net
 /-!
 Driver: reads records `cmd arg… | implementation-output` on stdin, prints one answer line per record:
 `EQ|NE  H1|H0:<clause>  [model output when NE]`.  State is per family and persists across lines.
@@ -28,6 +29,7 @@ def stepLine (st : DriverSt) (line : String) : DriverSt × String :=
   else if cmd.startsWith "text." then (st, Driver.Text.step cmd args impl)
   else if cmd.startsWith "tile." then (st, Driver.Tile.step cmd args impl)
   else if cmd.startsWith "pix." then (st, Driver.Pix.step cmd args impl)
+  else if cmd.startsWith "net." then (st, Driver.Net.step cmd args impl)
   else (st, "ERR unknown-family")
 
 partial def loop (h : IO.FS.Stream) (out : IO.FS.Stream) (st : DriverSt) : IO Unit := do
